@@ -58,21 +58,13 @@ func replaceMatchers(selectors matcherHeap, expr *parser.Expr) {
 				continue
 			}
 
-			// Make a copy of the original selectors to avoid modifying them while
-			// trimming filters.
-			filters := make([]*labels.Matcher, len(e.LabelMatchers))
-			copy(filters, e.LabelMatchers)
-
-			// All replacements are done on metrics name only,
-			// so we can drop the explicit metric name selector.
-			filters = dropMatcher(labels.MetricName, filters)
-
-			// Drop filters which are already present as matchers in the replacement selector.
-			for _, s := range replacement {
-				for _, f := range filters {
-					if s.Name == f.Name && s.Value == f.Value && s.Type == f.Type {
-						filters = dropMatcher(f.Name, filters)
-					}
+			// The matchers which are not applied by the replacement selector
+			// are kept as filters. A label name can be used by more than one
+			// matcher, so matchers are compared one by one.
+			filters := make([]*labels.Matcher, 0, len(e.LabelMatchers))
+			for _, f := range e.LabelMatchers {
+				if !containsMatcher(replacement, f) {
+					filters = append(filters, f)
 				}
 			}
 			e.LabelMatchers = replacement
@@ -96,6 +88,16 @@ func dropMatcher(matcherName string, originalMatchers []*labels.Matcher) []*labe
 		}
 	}
 	return originalMatchers
+}
+
+// containsMatcher reports whether one of the matchers has the name, type and value of m.
+func containsMatcher(matchers []*labels.Matcher, m *labels.Matcher) bool {
+	for _, o := range matchers {
+		if o.Name == m.Name && o.Type == m.Type && o.Value == m.Value {
+			return true
+		}
+	}
+	return false
 }
 
 func matcherToMap(matchers []*labels.Matcher) map[string]*labels.Matcher {
@@ -133,22 +135,15 @@ func (m matcherHeap) findReplacement(metricName string, matcher []*labels.Matche
 		return nil, false
 	}
 
-	matcherSet := matcherToMap(matcher)
-	topSet := matcherToMap(top)
-	for k, v := range topSet {
-		m, ok := matcherSet[k]
-		if !ok {
-			return nil, false
-		}
-
-		equals := v.Name == m.Name && v.Type == m.Type && v.Value == m.Value
-		if !equals {
+	// Every matcher of the top selector has to be one of the given matchers.
+	for _, t := range top {
+		if !containsMatcher(matcher, t) {
 			return nil, false
 		}
 	}
 
 	// The top matcher and input matcher are equal. No replacement needed.
-	if len(topSet) == len(matcherSet) {
+	if len(top) == len(matcher) {
 		return nil, false
 	}
 
